@@ -105,15 +105,27 @@ func checkC19(w *World, r *Report) {
 			// the writer is closed only when the run is over: every Close it reaches is a deferred call of Run,
 			// or sits in a function that is reached only through deferred calls of Run
 			nClose, okClose, badClose := 0, true, ""
-			for _, sk := range w.flowSinks(o.src) {
-				if sk.Kind == "recv" && sk.Name == "invoke:Close" {
-					nClose++
-					if !deferredInRun(w, run, o.call.Parent(), sk.Pos, 0) {
-						okClose = false
-						badClose = w.InstrPos(sk.Pos)
+			var closeSites func(src ssa.Value, d int)
+			closeSites = func(src ssa.Value, d int) {
+				for _, sk := range w.flowSinks(src) {
+					if sk.Kind == "recv" && sk.Name == "invoke:Close" {
+						nClose++
+						if !deferredInRun(w, run, o.call.Parent(), sk.Pos, 0) {
+							okClose = false
+							badClose = w.InstrPos(sk.Pos)
+						}
+					}
+					// handed to a helper of the module (a close-and-log-the-error helper): the closes of that parameter
+					if sk.Kind == "arg" && d < 2 {
+						if ci, isCall := sk.Pos.(ssa.CallInstruction); isCall {
+							if g := ci.Common().StaticCallee(); g != nil && g.Blocks != nil && w.InModule(g) && sk.Idx < len(g.Params) {
+								closeSites(g.Params[sk.Idx], d+1)
+							}
+						}
 					}
 				}
 			}
+			closeSites(o.src, 0)
 			r.Check(okClose && nClose > 0, "key.writer-closed-at-end", FuncName(run)+": writer \""+stream+"\" closed when the run is over", w.InstrPos(o.at), "closed only by deferred calls of Run (or by the opening helper itself, before any command runs)", fmt.Sprintf("the log writer is closed at %s, which is not (only) a deferred call of Run (%d close sites): output of the commands that follow is lost", badClose, nClose))
 			// key arguments and once per run
 			okK := strings.Contains(o.jobArg, "arg0.Variables.Get(\"__jobID\")") && o.taskAr == "arg0.Name"
@@ -423,7 +435,7 @@ func checkC19(w *World, r *Report) {
 			desc := ""
 			okP := len(opens) == 1
 			if okP {
-				desc = w.APThrough(opens[0].Common().Args[0])
+				desc = w.expandNestedHelpers(w.APThrough(opens[0].Common().Args[0]), 0)
 				okP = pathUsesAllKeys(desc)
 			}
 			exprs[m] = desc
@@ -595,4 +607,86 @@ func deferredInRun(w *World, run, opener *ssa.Function, site ssa.Instruction, de
 		})
 	}
 	return ok && n > 0
+}
+
+// expandNestedHelpers: calls of one-return helpers of the module that occur *inside* a rendered expression
+// (`path.Join([(*T).dir(recv,arg0),…])`) are replaced by what the helper returns, its parameters substituted by the rendered
+// arguments; a `path.Join` directly inside a `path.Join` is flattened (Join is associative on clean relative elements).
+func (w *World) expandNestedHelpers(expr string, depth int) string {
+	if depth > 3 {
+		return expr
+	}
+	for _, f := range w.ModFuncs {
+		if f.Parent() != nil || f.Blocks == nil {
+			continue
+		}
+		name := FuncName(f) + "("
+		i := strings.Index(expr, name)
+		if i < 0 {
+			continue
+		}
+		// the argument list
+		j, d := i+len(name), 1
+		for ; j < len(expr) && d > 0; j++ {
+			switch expr[j] {
+			case '(', '[':
+				d++
+			case ')', ']':
+				d--
+			}
+		}
+		if d != 0 {
+			continue
+		}
+		args := splitArgs(expr[i+len(name) : j-1])
+		if len(args) != len(f.Params) {
+			continue
+		}
+		var ret ssa.Value
+		n := 0
+		allInstrs(f, func(in ssa.Instruction) {
+			if rt, ok := in.(*ssa.Return); ok && len(rt.Results) == 1 {
+				n++
+				ret = rt.Results[0]
+			}
+		})
+		if n != 1 {
+			continue
+		}
+		body := w.AP(ret)
+		// simultaneous substitution of the parameter names
+		var sb strings.Builder
+		for k := 0; k < len(body); {
+			matched := false
+			for pi, prm := range f.Params {
+				pn := w.AP(prm)
+				if strings.HasPrefix(body[k:], pn) {
+					end := k + len(pn)
+					isWord := func(c byte) bool { return c == '_' || c >= '0' && c <= '9' || c >= 'a' && c <= 'z' || c >= 'A' && c <= 'Z' }
+					if (k == 0 || !isWord(body[k-1])) && (end == len(body) || !isWord(body[end])) {
+						sb.WriteString(args[pi])
+						k = end
+						matched = true
+						break
+					}
+				}
+			}
+			if !matched {
+				sb.WriteByte(body[k])
+				k++
+			}
+		}
+		expr = expr[:i] + sb.String() + expr[j:]
+		return w.expandNestedHelpers(expr, depth+1)
+	}
+	// path.Join([path.Join([a,b]),c]) → path.Join([a,b,c])
+	const jn = "path.Join([path.Join(["
+	if i := strings.Index(expr, jn); i >= 0 {
+		rest := expr[i+len(jn):]
+		if e := strings.Index(rest, "])"); e >= 0 && !strings.ContainsAny(rest[:e], "()[]") {
+			expr = expr[:i] + "path.Join([" + rest[:e] + rest[e+2:]
+			return w.expandNestedHelpers(expr, depth+1)
+		}
+	}
+	return expr
 }
